@@ -168,7 +168,7 @@ COV_TEARDOWN = feat({'self_fields': COV_FIELDS,
                                  " G.thr_trace == self.tracer._old_threading_trace and not G.settrace_wrapped)"]})
 
 # ------------------------------------------------------------------ Runner.run: the try/finally around the test phase
-RUN_GHOST = {'gs': 'Set[Feature]', 'early': 'Set[Feature]', 'torn': 'Set[Feature]', 'testing': 'bool', 'xmlw': 'int'}
+RUN_GHOST = {'gs': 'Set[Feature]', 'early': 'Set[Feature]', 'torn': 'Set[Feature]', 'testing': 'bool', 'xmlw': 'int', 'phase_ok': 'bool'}
 ALL_TORN = ("forall(q, Int, implies(0 <= q and q < len(self.features), self.features[q] in G.early and"
             " self.features[q] in G.torn))")
 
@@ -225,9 +225,10 @@ RUN = {
     'self_fields': {'features': 'List[Feature]', 'options': 'Rec[RunOptions]', 'do_run_tests': 'bool', 'show_report': 'bool',
                     'layer_name_cache': 'Any'},
     'ghost': RUN_GHOST,
-    'requires': ["not G.testing"],
-    'modifies': ['self.layer_name_cache', 'G.gs', 'G.early', 'G.torn', 'G.testing', 'G.xmlw'],
-    'ghost_code': {'for feature in self.features:\n    feature.late_setup()': ['G.testing = True']},   # the test phase begins
+    'requires': ["not G.testing", "not G.phase_ok"],
+    'modifies': ['self.layer_name_cache', 'G.gs', 'G.early', 'G.torn', 'G.testing', 'G.xmlw', 'G.phase_ok'],
+    'ghost_code': {'for feature in self.features:\n    feature.late_setup()': ['G.testing = True'],   # the test phase begins
+                   'if self.do_run_tests:\n    self.run_tests()': ['G.phase_ok = True']},         # ... and has ended normally
     'ensures': ["implies(G.testing, " + ALL_TORN + ")",
                 # C17: with --xml the reports are written exactly once after every run that got as far as running tests
                 # (and not at all without it) -- after the teardown, so the tree the wrapper recorded is complete
@@ -239,6 +240,9 @@ RUN = {
         # C03: --list-tests (Listing.global_setup clears do_run_tests) reaches no test or layer code
         'self.run_tests': ["self.do_run_tests"],
         'self.options.output.writeXMLReports': ["G.testing", ALL_TORN, "G.xmlw == old(G.xmlw)"],
+        # C07/C02: the features' report() -- in a layer subprocess SubProcess.report IS the result channel to the parent -- is
+        # reached only when the test phase ended normally: a child dying from an exception must not deliver a report
+        'feature.report': ["G.phase_ok", ALL_TORN],
         # a feature is only torn down after all features were set up (the loops are not interleaved)
         'feature.global_teardown': ["forall(q, Int, implies(0 <= q and q < len(self.features), self.features[q] in G.gs))",
                                     "forall(q, Int, implies(0 <= q and q < len(self.features), self.features[q] in G.early))"],
